@@ -123,7 +123,9 @@ def run_detect_measures(rng, obs):
     gens = rng.choice([0, 1, 2, 4, n, n + 2])
     # history of flattened product measures: [w..., x...] per measure
     wcols = [[gen_history(rng, n, 1) for _ in range(npt)] for _ in range(nmeas)]
-    wts = [[[abs(wcols[m][k][t][0]) * rng.choice([0.0, 0.001, 1.0]) for k in range(npt)] for m in range(nmeas)] for t in range(n)]
+    # (weights of an unnormalised, unconstrained measure may be negative: the documented test is on the weight itself, max(weight[i]) <= tolerance)
+    sgn = [[rng.choice([1.0, 1.0, 1.0, -1.0]) for k in range(npt)] for m in range(nmeas)]
+    wts = [[[sgn[m][k] * abs(wcols[m][k][t][0]) * rng.choice([0.0, 0.001, 1.0]) for k in range(npt)] for m in range(nmeas)] for t in range(n)]
     pos = [gen_history(rng, n, npt) for _ in range(nmeas)]
     mon = Monitor(npts=npts)
     hist = []
